@@ -135,3 +135,44 @@ MANIFEST_TEXT["C14"] = {
     "text": "Bounded model checking: for every policy tree shape within the bound (forked) with symbolic contents, witnesses, height, time and sighash, the real SpendPolicy.Verify is executed symbolically and compared on every path with an independently written evaluator of the policy's meaning (cursor-explicit, exact consumption). Address invariance under opaque substitution, address injectivity up to opaque commitment, and StandardAddress/StandardUnlockHash equivalence (including the two hard-coded leaf hashes, pinned to real BLAKE2b) are decided as term identities or by the solver.",
     "note": "Trusted: ideal hash/signature models, z3, engine. Bounds: depth/breadth as in evidence.bounds.",
 }
+
+C04_H = ["harness/c04/c04.go", "harness/c05/c05.go"]
+PROPS["C04"] = {
+    "runs": [
+        {"pkg": "consensus", "harness": C04_H, "run": "^VH_C04_", "params": {"quick": {"maxn": 5, "maxproof": 3, "v1": 1}, "thorough": {"maxn": 8, "maxproof": 4, "v1": 1}},
+         "flags": {"quick": ["-maxpaths", "300000"], "thorough": ["-maxpaths", "3000000", "-timeout", "60000"]},
+         "must_reach": {"VH_C04_MembershipSound": ["accepted-siacoin", "accepted-siafund", "accepted-v2contract", "accepted-chainindex", "accepted-v1contract"],
+                        "VH_C04_MembershipComplete": ["end"], "VH_C04_TransactionElements": ["accepted"]},
+         "tv_harnesses": ["VH_C04_MembershipComplete"]},
+    ],
+    "tv_runs": {"quick": 2, "thorough": 6},
+    "bounds": {"quick": "forests of n = 1..5 genuine leaves (element kinds siacoin, siafund, v2 contract, chain index, v1 contract by position; all fields and spent flags symbolic), candidate of every kind with symbolic fields, symbolic leaf index, proof length 0..3 with symbolic hashes; v1 contracts with 2 valid + 2 missed outputs and currency byte-length class in {1,9,16}",
+               "thorough": "n = 1..8, proof length 0..4"},
+    "outside": ["larger forests / longer proofs", "'taken from a reverted branch' is decided as 'not among the leaves of the current forest' (C05/C06 show the forest after revert is the parent forest)",
+                "v1 parents supplied in the block supplement are checked with the same containsLeaf code path through validateSupplement in the C10/C02 validator harnesses"],
+    "stubs": [],
+    "assumptions": COMMON_ASSUME + IDEAL_CRYPTO,
+}
+MANIFEST_TEXT["C04"] = {
+    "text": "Bounded model checking under the ideal-hash model: the forest roots are built by an independent naive reference over the real leaf-hash code for n symbolic genuine elements; for a fully symbolic candidate (all fields, claimed index, proof hashes) the solver proves contains*(candidate) => some genuine leaf has exactly this kind, position, every hashed field and spent status. A field omitted from a leaf hash, or a missing kind distinguisher, yields a concrete forged element, replayed natively.",
+    "note": "Trusted: injective ideal hash, z3/cvc5, engine. Bounds: n <= 5 (8), proof length <= 3 (4).",
+}
+PROPS["C05"] = {
+    "runs": [
+        {"pkg": "consensus", "harness": ["harness/c05/c05.go"], "run": "^VH_C05_", "params": {"quick": {"maxn": 11, "maxk": 4, "maxu": 3}, "thorough": {"maxn": 20, "maxk": 8, "maxu": 3}},
+         "flags": {"quick": ["-maxloop", "100000000", "-maxsteps", "200000000000"], "thorough": ["-maxloop", "1000000000", "-maxsteps", "20000000000000"]},
+         "must_reach": {"VH_C05_ApplyRevert": ["end"]}, "tv_harnesses": []},
+        {"pkg": "consensus", "harness": ["harness/c05/c05.go"], "run": "^VH_C05_", "params": {"thorough": {"maxn": 9, "maxk": 3, "maxu": 9}},
+         "flags": {"thorough": ["-maxloop", "1000000000", "-maxsteps", "20000000000000"]}, "thorough_only": True},
+    ],
+    "tv_runs": {"quick": 0, "thorough": 0},
+    "bounds": {"quick": "every accumulator size n = 0..11 (all bit patterns), every subset of <= 3 old leaves updated (all positions), k = 0..4 leaves added; one apply, one revert, one re-apply; every old, updated and added leaf tracked by a client",
+               "thorough": "n = 0..20 with <= 3 updated and k <= 8; all subsets for n <= 9"},
+    "outside": ["n > 20; apply/revert interleavings deeper than apply-revert-apply (each step starts from a forest that the previous step proved equal to the naive one, so longer sequences follow by induction on the step)"],
+    "stubs": [],
+    "assumptions": COMMON_ASSUME + IDEAL_CRYPTO + ["leaf hashes are symbolic: equalities of roots and proofs are decided as identities of hash terms (term simplifier), the solver decides branch feasibility"],
+}
+MANIFEST_TEXT["C05"] = {
+    "text": "Bounded symbolic execution: applyBlock / revertBlock / updateElementProof run on symbolic leaf hashes for every configuration in the bound; the resulting Trees, NumLeaves and every client's proof are compared (as hash-term identities, i.e. for all hash values at once) with an independently written naive forest and its sibling paths, after apply, after revert against the parent forest, and after re-apply.",
+    "note": "Trusted: ideal hash, engine. Control flow here depends only on the (enumerated) sizes and positions, so obligations close in the term layer; bounds as in evidence.bounds.",
+}
